@@ -24,7 +24,7 @@ var c03Inflight = map[string]string{
 	"never":   "hang",
 	"upgrade": "upgrade",
 	"lateup":  "delay=600ms;upgrade", // ordinary in-flight request when draining begins, upgraded at t_d + 0.5s
-	"offer":   "delay=600ms", // offers a protocol upgrade (Connection: Upgrade) that the target does not take; done at t_d + 0.5s
+	"offer":   "delay=600ms",         // offers a protocol upgrade (Connection: Upgrade) that the target does not take; done at t_d + 0.5s
 }
 
 type c03cfg struct {
